@@ -217,7 +217,7 @@ def event_class(ip, v):
     return None
 
 
-@contract('lomond.session.WebsocketSession.run', serves=['C07', 'C09', 'C13', 'C14', 'C18', 'C19'])
+@contract('lomond.session.WebsocketSession.run', serves=['C01', 'C04', 'C07', 'C08', 'C09', 'C13', 'C14', 'C15', 'C18', 'C19'])
 class Run(ProducerContract):
     """the connection's event iterator.  Ghost monitor $phase (spec/monitor.py, transcribed from
     C07) is advanced at EVERY yield; no exception other than GeneratorExit leaves the generator;
